@@ -241,6 +241,17 @@ func c04Specs(quick bool) []*SeqSpec {
 		op(0, U(0, 1, 13)),
 		tick(2 * sec),
 	}})
+	// the holder itself makes room: it raises its Count by an update or by a re-entrant lock while requests are queued
+	specs = append(specs, &SeqSpec{Name: "holder-raises-count", Cfg: cfg, Depth: zd - 1, Drain: true, Alphabet: []SeqOp{
+		op(0, L(0, 1, 1, 0, 30, 0, 1)),
+		op(1, L(0, 1, 2, 6, 30, 1, 0)),
+		op(1, L(0, 1, 3, 6, 30, 2, 0)),
+		op(0, hapi.Cmd{Type: 1, Key: 1, Id: 1, Flag: 0x02, Expried: 30, Count: 1, Rcount: 1}), // update: Count 0 -> 1
+		op(0, L(0, 1, 1, 0, 30, 2, 1)),                                                         // re-entrant lock: depth 2, Count 2
+		op(0, hapi.Cmd{Type: 2, Key: 1, Id: 1, Rcount: 1}),
+		op(0, U(0, 1, 1)),
+		tick(2 * sec),
+	}})
 	// requests that wait for the key to be TAKEN (wait-when-unlocked flag, as Event.Wait of a default-clear event
 	// sends them): they queue on a free key; one of them timing out or being cancelled must not release the others
 	specs = append(specs, &SeqSpec{Name: "wait-when-unlocked-waiters", Cfg: cfg, Depth: zd, Drain: true, Alphabet: []SeqOp{
